@@ -199,7 +199,7 @@ func (t *Truth) SurelyInhibited(l model.Labels, ep *scen.Epoch, x time.Time) boo
 // Accepting says whether (receiver, idx) accepts deliveries at x (no fault window, slow is accepting).
 func (t *Truth) Accepting(receiver string, idx int, x time.Time) bool {
 	f := t.R.Scenario.FaultAt(receiver, idx, x.Sub(t.R.Start))
-	return f == nil || f.Kind == "slow"
+	return f == nil || f.Kind == "slow" || f.Kind == "slowdeaf"
 }
 
 // ReceiverHasFaults reports whether any integration of the receiver has a fault window or a slow window.
@@ -208,7 +208,7 @@ func (t *Truth) ReceiverMaxDisturbance(receiver string) (faults bool, maxDelay t
 		if f.Receiver != receiver {
 			continue
 		}
-		if f.Kind != "slow" {
+		if f.Kind != "slow" && f.Kind != "slowdeaf" {
 			faults = true
 		}
 		if f.Delay > maxDelay {
